@@ -425,7 +425,7 @@ pub const BAD_505: &[&[u8]] = &[
     b"GET /v2 HTTP/2.0\r\nHost: x\r\n\r\n",
     b"GET /v3 HTTP/3.0\r\n\r\n",
     b"POST /v2 HTTP/2.0\r\nContent-Length: 4\r\n\r\nbody",
-    b"POST /v2 HTTP/2.0\r\nContent-Length: 2000\r\n\r\n",
+    b"POST /v2 HTTP/2.0\r\nContent-Length: 20\r\n\r\n01234567890123456789",
 ];
 pub const BAD_SILENT: &[&[u8]] = &[b"GET /\xc3\xa9 HTTP/1.1\r\nHost: x\r\n\r\n", b"GET / HTTP/1.1\r\nX-Name: caf\xe9\r\n\r\n", b"G\xffT / HTTP/1.1\r\n\r\n"];
 
